@@ -7,7 +7,7 @@
 (***************************************************************************)
 EXTENDS Integers, Sequences, FiniteSets, TLC, Json
 
-CONSTANT Full      \* TRUE: all pairs; FALSE: pairs of read-write variables only
+CONSTANT Full      \* TRUE: every variable at slot 5 x every read-write variable at another slot; FALSE: read-write pairs at two slots
 
 VARIABLE d
 
@@ -23,26 +23,29 @@ Splits     == {<<<<0, 128>>, <<128, 128>>>>,
                <<<<0, 64>>, <<64, 64>>, <<128, 64>>, <<192, 64>>>>,
                <<<<0, 160>>, <<160, 8>>, <<168, 8>>, <<176, 32>>, <<208, 16>>, <<224, 32>>>>}
 
-Var(kind, slot, keys, valAddr, fields, acc, wmul, topw) ==
+Var(kind, slot, keys, valAddr, fields, acc, wmul, topw, wall) ==
     [kind |-> kind, slot |-> slot, width |-> 0, keys |-> keys, val_addr |-> valAddr, fields |-> fields, access |-> acc,
-     wmul |-> wmul, top_w |-> topw]
+     wmul |-> wmul, top_w |-> topw, wall |-> wall, pre |-> 0]
 
 Shapes ==
-    {[kind |-> "word", keys |-> << >>, val_addr |-> FALSE, fields |-> << >>, wmul |-> FALSE, top_w |-> FALSE],
-     [kind |-> "addr", keys |-> << >>, val_addr |-> FALSE, fields |-> << >>, wmul |-> FALSE, top_w |-> FALSE]}
-    \cup {[kind |-> "map", keys |-> <<k>>, val_addr |-> va, fields |-> << >>, wmul |-> FALSE, top_w |-> FALSE] : k \in KeyKinds, va \in BOOLEAN}
-    \cup {[kind |-> "map", keys |-> <<k1, k2>>, val_addr |-> va, fields |-> << >>, wmul |-> FALSE, top_w |-> FALSE] : k1 \in KeyKinds, k2 \in KeyKinds, va \in BOOLEAN}
-    \cup {[kind |-> "map", keys |-> <<"addr", "word", "addr">>, val_addr |-> FALSE, fields |-> << >>, wmul |-> FALSE, top_w |-> FALSE],
-          [kind |-> "map", keys |-> <<"word", "addr", "word", "addr">>, val_addr |-> TRUE, fields |-> << >>, wmul |-> FALSE, top_w |-> FALSE]}
-    \cup {[kind |-> "dyn", keys |-> << >>, val_addr |-> va, fields |-> << >>, wmul |-> FALSE, top_w |-> FALSE] : va \in BOOLEAN}
-    \cup {[kind |-> "packed", keys |-> << >>, val_addr |-> FALSE, fields |-> f, wmul |-> m, top_w |-> t] :
+    {[kind |-> "word", keys |-> << >>, val_addr |-> FALSE, fields |-> << >>, wmul |-> FALSE, top_w |-> FALSE, wall |-> 0],
+     [kind |-> "addr", keys |-> << >>, val_addr |-> FALSE, fields |-> << >>, wmul |-> FALSE, top_w |-> FALSE, wall |-> 0]}
+    \cup {[kind |-> "map", keys |-> <<k>>, val_addr |-> va, fields |-> << >>, wmul |-> FALSE, top_w |-> FALSE, wall |-> 0] : k \in KeyKinds, va \in BOOLEAN}
+    \cup {[kind |-> "map", keys |-> <<k1, k2>>, val_addr |-> va, fields |-> << >>, wmul |-> FALSE, top_w |-> FALSE, wall |-> 0] : k1 \in KeyKinds, k2 \in KeyKinds, va \in BOOLEAN}
+    \cup {[kind |-> "map", keys |-> <<"addr", "word", "addr">>, val_addr |-> FALSE, fields |-> << >>, wmul |-> FALSE, top_w |-> FALSE, wall |-> 0],
+          [kind |-> "map", keys |-> <<"word", "addr", "word", "addr">>, val_addr |-> TRUE, fields |-> << >>, wmul |-> FALSE, top_w |-> FALSE, wall |-> 0]}
+    \cup {[kind |-> "dyn", keys |-> << >>, val_addr |-> va, fields |-> << >>, wmul |-> FALSE, top_w |-> FALSE, wall |-> 0] : va \in BOOLEAN}
+    \cup {[kind |-> "packed", keys |-> << >>, val_addr |-> FALSE, fields |-> f, wmul |-> m, top_w |-> t, wall |-> 0] :
               f \in Splits, m \in BOOLEAN, t \in BOOLEAN}
+    \* every field written in one store, the ors nested to the left (1) or to the right (2)
+    \cup {[kind |-> "packed", keys |-> << >>, val_addr |-> FALSE, fields |-> f, wmul |-> m, top_w |-> FALSE, wall |-> w] :
+              f \in Splits, m \in BOOLEAN, w \in {1, 2}}
 
-Vars(slots, accs) == {Var(s.kind, sl, s.keys, s.val_addr, s.fields, a, s.wmul, s.top_w) : s \in Shapes, sl \in slots, a \in accs}
+Vars(slots, accs) == {Var(s.kind, sl, s.keys, s.val_addr, s.fields, a, s.wmul, s.top_w, s.wall) : s \in Shapes, sl \in slots, a \in accs}
 
 Singles == {<<v>> : v \in Vars(AllSlots, Access)}
 Pairs == IF Full
-         THEN {<<v, w>> : v \in Vars(AllSlots, Access), w \in Vars(AllSlots, Access)}
+         THEN {<<v, w>> : v \in Vars({"0x05"}, Access), w \in Vars(AllSlots \ {"0x05"}, {"rw"})}
          ELSE {<<v, w>> : v \in Vars({"0x05"}, {"rw"}), w \in Vars({"0x00", "0x0100000000000000000000000000000000"}, {"rw"})}
 
 Contracts == Singles \cup {p \in Pairs : p[1].slot # p[2].slot}
